@@ -2,7 +2,7 @@
    The subtype theorems are for EVERY class table that is closed and acyclic; the dispatch theorems also
    need `kinds_ok` (a method name is static everywhere or nowhere; Spec.wf = closed && acyclic && kinds_ok):
    tables in which a subclass redeclares a static name as an instance method are outside them. *)
-From V.C08 Require Import Model Spec ProofsIface ProofsClass ProofsDispatch ProofsDecl PropLemmas.
+From V.C08 Require Import Model Spec ProofsIface ProofsClass ProofsDispatch ProofsHops ProofsDecl PropLemmas.
 
 (* "T is the object's class, one of its ancestors, or an interface reachable through
    implements/extends edges": the three separate subtype walks all decide exactly that relation *)
@@ -120,6 +120,20 @@ Proof. exact sentry_parent_l. Qed.
 Print Assumptions static_entry_self.
 Print Assumptions static_entry_static.
 Print Assumptions static_entry_parent.
+
+(* the same bindings at ANY depth and in any order: a chain `$o->f()` (or `r::f()` from outside) whose bodies go on
+   with `$this->m()`, `self::s()`, `static::s()`, `parent::m()` hop after hop runs, at every hop, the definition the
+   reference semantics names — `$this->` and `static::` resolve from the class the chain started on (the runtime
+   class), `self::` from the class the running body is written in, `parent::` from that class's parent.
+   hops_ok: `$this->` only while an object is at hand, `parent::` only in a class that has a parent, self:: / static::
+   on static method names.  (Proof: the per-hop context transformer hop_step keeps the relation R of ProofsHops.v;
+   the chain is the fold.  The three one-level-deeper theorems above are instances.) *)
+Theorem call_chain_follows_hierarchy : forall t se r c f hs, wf t = true -> get_class t r = Some c ->
+  (se = true -> static_name t f = true) ->
+  (forall d, resolve t r f = Some d -> hops_ok t (negb se) {| s_run := r; s_lexc := d |} hs = true) ->
+  run_hops t se r f hs = Ok (spec_run_hops t r f hs).
+Proof. exact call_chain_l. Qed.
+Print Assumptions call_chain_follows_hierarchy.
 
 (* "$o like T holds exactly when the object provides, itself or by inheritance, every method T
    declares with the same number of parameters" (after fix d3e2cea) *)
